@@ -596,7 +596,7 @@ Section Sim.
   Lemma do_loop_sim : forall env depth stk cur pre set val group sort rest bl fm,
     content = pre ++ loop_head set val group sort ++ rest ->
     match set with Some p => TfullModel.wf_path p = true | None => True end -> wf_name val = true -> wf_name group = true ->
-    head_len set val group sort <= 255 -> depth < 255 -> length stk = depth -> env_in content env ->
+    head_len set val group sort <= 255 -> depth <= 255 -> length stk = depth -> env_in content env ->
     do_loop w content (mkS (length pre + 5) fm stk cur false (map snd env)) =
     let l2 := up_end (loop_rec env depth (length pre) set val group sort bl) 0 in
     let mo := next_spec_c8 rest (length pre + length (loop_head set val group sort)) in
@@ -630,6 +630,7 @@ Section Sim.
       [|apply (at_nth _ _ _ Hat2 0 62%N eq_refl); lia|lia].
     cbn [bind]. set (e := length pre + 5 + length at0).
     destruct (Nat.ltb_spec e o') as [_|X]; [|unfold e in X; lia].
+    cbn [ps_stack andb]. destruct (Nat.leb_spec (length stk) 255) as [_|X]; [|lia].
     unfold parse_loop_attributes. cbn [l_off]. unfold tpp_LoopPrefixLength.
     rewrite (loop_attrs_cont content e) by (unfold e; lia).
     rewrite (tail_set content e env set val group sort _ (length pre + 5) 0%N); try assumption; try reflexivity.
